@@ -87,6 +87,12 @@ func genCase(t *rapid.T) Case {
 			msgEdges = append(msgEdges, m, 2*m, 3*m)
 		}
 	}
+	// WebSocket-FLV: one FLV tag (11 + payload + 4 bytes) is one WebSocket frame; the frame's length classes change
+	// at 125/126 and 65535/65536 (seed c01-g: a 65536-byte tag announced with a 16-bit length of 0)
+	msgEdges = append(msgEdges, 126-15)
+	if c.PubChunk >= 128 || c.PubChunk == 0 {
+		msgEdges = append(msgEdges, 65536-15, 65536-15)
+	}
 	o := gen.StreamOpts{Video: []string{"avc", "avc", "hevc", ""}, Audio: []string{"aac", "aac", "g711a", "opus", ""},
 		MaxGops: 4, MaxGopLen: 5, MaxNalLen: maxNal, SizeEdges: edges, AllowEmpty: true, HeaderChurn: true, TsJumps: true, MultiNal: true, Cts: true,
 		MsgSizeEdges: msgEdges, MidMeta: true, MidHeaders: true, AscChurn: true, TsBack: true}
@@ -735,6 +741,14 @@ func classify(c Case) (bool, []string) {
 				if l%m == 0 {
 					labels = append(labels, "len-exact-multiple:"+it.Kind)
 				}
+			}
+		}
+		if tl := l + 15; it.Kind == "audio" || it.Kind == "video" {
+			if tl >= 65535 && tl <= 65537 {
+				labels = append(labels, "flv-tag-on-ws-64k-length-class")
+				edge = true
+			} else if tl >= 125 && tl <= 127 {
+				labels = append(labels, "flv-tag-on-ws-126-length-class")
 			}
 		}
 		switch it.Kind {
